@@ -20,11 +20,24 @@ pub static HANGING: AtomicBool = AtomicBool::new(false);
 pub static RELEASE: Mutex<bool> = Mutex::new(false);
 pub static RELEASE_CV: Condvar = Condvar::new();
 
+/// Called by the scripted HTTP server (real-HTTP transport) before it answers a request of that stage: the
+/// connection of the update — the first request of that stage — stays open and silent: a hung connection.
+pub fn maybe_hang_http(stage: usize) {
+    if HANG_STAGE.load(Ordering::SeqCst) != stage {
+        return;
+    }
+    hang_here();
+}
+
 /// Called by the network callbacks: blocks the update thread (role 0) at the configured stage.
 pub fn maybe_hang(stage: usize) {
     if HANG_STAGE.load(Ordering::SeqCst) != stage || ROLE.with(|r| r.get()) != Some(0) {
         return;
     }
+    hang_here();
+}
+
+fn hang_here() {
     if HANGING.swap(true, Ordering::SeqCst) {
         return; // only the first callback of that stage hangs
     }
